@@ -262,6 +262,12 @@ func (w *World) Stop(timeout time.Duration) error {
 	return w.Sys.Stop(timeout)
 }
 
+// StopDefault stops the system with its configured timeout.
+func (w *World) StopDefault() error {
+	w.stopped = true
+	return w.Sys.Stop()
+}
+
 func (w *World) gate(name string) chan struct{} {
 	w.mu.Lock()
 	defer w.mu.Unlock()
